@@ -40,6 +40,8 @@ func init() {
 			"Go int treated as unbounded (no text near 2^31 bytes)",
 			"fewer than 2^32 trie nodes (uint32 head/tail/cap of trieNodeQueue do not wrap)",
 			"every call is made after BuildFailureLinks",
+			"a Trie is used through one value: a by-value copy of a Trie that already holds patterns is outside the property (the root node is embedded and the depth-1 failure links point at the ORIGINAL root, so a query on such a copy dereferences nil in the unchanged code as well); copies of the zero value are independent and are exercised (`sibling` op)",
+			"results ledger: every returned string is kept alive with a deep copy and re-compared after every later call on the same and on a second trie; arguments are passed as windows of canary-framed arenas",
 		},
 		TrustedBase: []string{
 			"property oracle: coverage bitmap by naive byte scanning (bytes.Equal), unicode/utf8.DecodeRune / AppendRune / RuneCount (Go standard library)",
@@ -87,31 +89,48 @@ func stepOp(t *algz.Trie, tk []string) string {
 	return "bad-op"
 }
 
-func impl(c core.Case) []string {
-	var t algz.Trie
-	cyc := ""
-	return core.RunOps(c,
-		func(hdr []string) string {
-			o := c05.RunTrie(&t, hdr)
-			if o == "ok" {
-				cyc = c05.FailCycle(&t)
-			}
-			return o
-		},
-		func(tk []string) string {
-			if o, ok := c05.StepMut(&t, tk); ok {
-				if len(tk) == 1 && o == "ok" {
-					cyc = c05.FailCycle(&t) // after every build
-				}
-				return o
-			}
-			if cyc != "" && !(len(tk) == 1 && tk[0] == "dump") {
-				// `find` would never return on a cyclic fail chain (and exhaust the memory)
-				return c05.CycleWord + cyc
-			}
-			return stepOp(&t, tk)
-		})
+// query answers one C06 call on the session's trie; every returned string goes into the
+// results ledger and becomes the live `^` of the following calls.
+func query(s *c05.Session, tk []string) string {
+	if len(tk) != 3 {
+		return "bad-op"
+	}
+	text, ok := s.Arg(tk[1])
+	if !ok {
+		return "bad-op"
+	}
+	switch tk[0] {
+	case "sibling": // tk[1] = pattern, tk[2] = text
+		x, ok := s.Arg(tk[2])
+		if !ok {
+			return "bad-op"
+		}
+		r := s.Sibling(text).Replace(x, "#")
+		s.Keep(r)
+		return c05.Hex([]byte(r))
+	case "mask":
+		m, err := strconv.ParseInt(tk[2], 10, 32)
+		if err != nil {
+			return "bad-op"
+		}
+		r := s.T.ReplaceWithMask(text, rune(m))
+		s.Keep(r)
+		s.Last = r
+		return c05.Hex([]byte(r))
+	case "replace":
+		repl, ok := s.Arg(tk[2])
+		if !ok {
+			return "bad-op"
+		}
+		r := s.T.Replace(text, repl)
+		s.Keep(r)
+		s.Last = r
+		return c05.Hex([]byte(r))
+	}
+	return "bad-op"
 }
+
+func impl(c core.Case) []string { return c05.RunSession(c, query) }
 
 // ---- the property's own predicate: coverage bitmap by naive scanning
 
@@ -261,6 +280,10 @@ func checkOp(ps *c05.PatSet, tk []string, out string) (string, string) {
 }
 
 func check(c core.Case, out []string) *core.Failure {
+	if f := c05.Instability(c, out); f != nil {
+		return f
+	}
+	c = c05.Resolved(c, out, true)
 	phases, ok := c05.Phases(c)
 	if !ok {
 		return &core.Failure{Key: "bad-output", Desc: "bad header"}
@@ -294,6 +317,18 @@ func check(c core.Case, out []string) *core.Failure {
 			}
 			continue
 		}
+		if len(tk) == 3 && tk[0] == "sibling" {
+			pat, ok1 := c05.Unhex(tk[1])
+			text, ok2 := c05.Unhex(tk[2])
+			if !ok1 || !ok2 {
+				return &core.Failure{Key: "bad-output", Desc: "bad op line " + c.Lines[i]}
+			}
+			if key, desc := checkOp(c05.NewPatSet([][]byte{pat}), []string{"replace", tk[2], "23"}, out[i]); key != "" {
+				return &core.Failure{Key: key, Desc: fmt.Sprintf("op %d %q (an independent second trie built from a copy of the zero value): %s", i, c.Lines[i], desc)}
+			}
+			_ = text
+			continue
+		}
 		if ph.Dirty {
 			continue // patterns inserted since the last build: outside the property
 		}
@@ -325,6 +360,7 @@ func check(c core.Case, out []string) *core.Failure {
 // ---- non-triviality and distribution labels
 
 func nonTrivial(c core.Case, out []string) bool {
+	c = c05.Resolved(c, out, true)
 	all, ok := c05.HeaderPatterns(c.Lines[0])
 	if !ok {
 		return false
@@ -349,6 +385,8 @@ func nonTrivial(c core.Case, out []string) bool {
 }
 
 func classify(c core.Case, out []string) []string {
+	raw := c
+	c = c05.Resolved(c, out, true)
 	all, ok := c05.HeaderPatterns(c.Lines[0])
 	if !ok {
 		return nil
@@ -388,10 +426,29 @@ func classify(c core.Case, out []string) []string {
 	}
 	for i := 1; i < len(c.Lines); i++ {
 		tk := core.Toks(c.Lines[i])
+		if strings.Contains(raw.Lines[i], " ^") {
+			ls = append(ls, "feedback:result-as-next-argument")
+		}
+		if len(tk) == 3 && tk[0] == "sibling" {
+			ls = append(ls, "sibling:second-trie")
+			continue
+		}
+		if !phases[i].Mut && phases[i].Dirty {
+			ls = append(ls, "history:call-before-rebuild")
+			if out[i] == "panic" {
+				ls = append(ls, "history:call-before-rebuild-panicked-recovered")
+			}
+		}
 		if phases[i].Mut || phases[i].Dirty {
 			continue
 		}
 		ps = phases[i].PS
+		if len(tk) == 3 && len(out[i]) >= 2048 && out[i] != "dead" {
+			ls = append(ls, "result>=1KB")
+		}
+		if len(tk) == 3 && len(out[i]) >= 131072 {
+			ls = append(ls, "result>=64KB")
+		}
 		if phases[i].Round > 0 && out[i] != "dead" {
 			ls = append(ls, "history:op-after-rebuild")
 		}
